@@ -75,7 +75,10 @@ class PropertyName(Node):
             obj_name = 'this'
         
         propName = self.name
-        if self.name in get_keys(KNOWN_PROPERTIES):
+        # A property the script declares itself belongs to the script object,
+        # whatever its name (assignments already address it there)
+        if (not isinstance(self, DefinedPropertyName)
+            and self.name in get_keys(KNOWN_PROPERTIES)):
             obj_name = KNOWN_PROPERTIES[propName]
         return vsprintf("%s.%s", obj_name, propName)
 
